@@ -16,7 +16,12 @@ Open Scope Q_scope.
 
 Record vin := mkvin { wx : Q; wy : Q; wz : Q; wsc : Q; wdm : dims }.
 Record gcase := mkg { gfn : string; gds : bool; gb1 : vin; gb2 : vin; gwl : inp; gg : vin;
-                      go1 : outcome; go2 : outcome; gtol : Q; gband : Q }.
+                      go1 : outcome; go2 : outcome; gtol : Q; gband : Q;
+                      (* small angles (detectors close to the beam axis): RELATIVE accuracy [grel] w.r.t. the size of
+                         the quantities the angle is assembled from, never tighter than [gfloor] (rounding of the frame
+                         dot products); phi: the absolute tolerance is widened by [gphi]/rho where the raised beam is
+                         within rho < gphi (sine) of the e_z axis, where atan2(y', x) is ill-conditioned *)
+                      grel : Q; gfloor : Q; gphi : Q }.
 
 (* ---- the arithmetic the regenerated functions are run with: QInst's operations, every result rounded
    to 160 significant bits (qr below).  Exact rationals are hopeless here: each sqrt contributes a
@@ -74,7 +79,33 @@ Definition sp_phi (b1 b2 g : q3) (lam : Q) : Q :=
   let c := sp_raised b2 g lam in qatan2 (d3 c (sp_ey g)) (d3 c (cross3 (sp_ey g) (sp_ez b1 g))).
 Definition sp_gamma (b1 b2 g : q3) (lam : Q) : Q :=
   qatan2 (Qabs (radd (d3 b2 (sp_ey g)) (sp_delta b2 g lam))) (d3 b2 (sp_ez b1 g)).
+(* conditioning scales.  two_theta: tan(gravity-free angle) + drop angle (>= the exact angle, forward
+   hemisphere only); gamma: (|y_d| + delta) / z_d; phi: sine of the angle between the raised beam and e_z *)
+Definition sp_scale_tt (b1 b2 g : q3) (lam : Q) : option Q :=
+  let c := d3 b1 b2 in
+  if Qle_bool c 0 then None
+  else Some (radd (rdiv (n3 (cross3 b1 b2)) c) (rdiv (sp_delta b2 g lam) (n3 b2))).
+Definition sp_scale_gamma (b1 b2 g : q3) (lam : Q) : option Q :=
+  let z := d3 b2 (sp_ez b1 g) in
+  if Qle_bool z 0 then None
+  else Some (rdiv (radd (Qabs (d3 b2 (sp_ey g))) (sp_delta b2 g lam)) z).
+Definition sp_rho_phi (b1 b2 g : q3) (lam : Q) : Q :=
+  let c := sp_raised b2 g lam in
+  let y := d3 c (sp_ey g) in let x := d3 c (cross3 (sp_ey g) (sp_ez b1 g)) in
+  rdiv (rsqrt (radd (rmul y y) (rmul x x))) (n3 c).
 End Spec.
+
+(* effective tolerances *)
+Definition qmin' (a b : Q) : Q := if Qle_bool a b then a else b.
+Definition qmax' (a b : Q) : Q := if Qle_bool a b then b else a.
+Definition tol_small (tol rel floor : Q) (scale : option Q) : Q :=
+  match scale with
+  | Some s => qmin' tol (qmax' (rel * s) floor)
+  | None => tol
+  end.
+Definition tol_phi (tol c0 rho : Q) : Q :=
+  if Qle_bool rho 0 then 1000            (* raised beam ON the e_z axis: phi is not defined *)
+  else if Qle_bool c0 rho then tol else rdiv (rmul tol c0) rho.
 
 Section D.
 Variables h mn : Q.
@@ -115,10 +146,12 @@ Definition check (c : gcase) : string :=
   if String.eqb (gfn c) "sawg" then
     match scattering_angles_with_gravity O (gds c) b1 b2 wl g with
     | VDict _ [(_, m1); (_, m2)] =>
-        first_of [ tag "model:two_theta:" (cmp_model m1 (go1 c) (gtol c));
-                   tag "model:phi:" (cmp_model m2 (go2 c) (gtol c));
-                   tag "spec:two_theta:" (cmp_angle (sp_two_theta h mn p1 p2 pg lam) None (go1 c) (gtol c + gband c));
-                   tag "spec:phi:" (cmp_angle (sp_phi h mn p1 p2 pg lam) None (go2 c) (gtol c + gband c)) ]
+        let t1 := tol_small (gtol c) (grel c) (gfloor c) (sp_scale_tt h mn p1 p2 pg lam) in
+        let t2 := tol_phi (gtol c) (gphi c) (sp_rho_phi h mn p1 p2 pg lam) in
+        first_of [ tag "model:two_theta:" (cmp_model m1 (go1 c) t1);
+                   tag "model:phi:" (cmp_model m2 (go2 c) t2);
+                   tag "spec:two_theta:" (cmp_angle (sp_two_theta h mn p1 p2 pg lam) None (go1 c) (t1 + gband c));
+                   tag "spec:phi:" (cmp_angle (sp_phi h mn p1 p2 pg lam) None (go2 c) (t2 + gband c)) ]
     | VErr _ e => match go1 c with OutErr cls => if String.eqb e cls then "" else "error-class:model=" ++ e ++ ",impl=" ++ cls
                                | _ => "model-raises-" ++ e end
     | _ => "model-shape"
@@ -127,8 +160,9 @@ Definition check (c : gcase) : string :=
     let m := scattering_angle_in_yz_plane O (gds c) b1 b2 wl g in
     match m with
     | VErr _ _ => cmp_model m (go1 c) (gtol c)
-    | _ => first_of [ tag "model:gamma:" (cmp_model m (go1 c) (gtol c));
-                      tag "spec:gamma:" (cmp_angle (sp_gamma h mn p1 p2 pg lam) None (go1 c) (gtol c)) ]
+    | _ => let t1 := tol_small (gtol c) (grel c) (gfloor c) (sp_scale_gamma h mn p1 p2 pg lam) in
+           first_of [ tag "model:gamma:" (cmp_model m (go1 c) t1);
+                      tag "spec:gamma:" (cmp_angle (sp_gamma h mn p1 p2 pg lam) None (go1 c) t1) ]
     end
   else if String.eqb (gfn c) "drop" then
     (* _drop_due_to_gravity(distance = |b2|, wavelength, gravity): relative comparison, unit of distance *)
